@@ -38,7 +38,7 @@ CHECKS = {
     "C08": {"harnesses": [("harness.ophistory", "C08_OpHistory"), ("harness.priority", "C08_HeapMaintenance")]},
     "C03": {"harnesses": [("harness.matching", "C03_ClearingRound"), ("harness.matching", "C03_Continuous"),
                           ("harness.ophistory", "C03_OpHistory"), ("harness.priority", "C03_HeapMaintenance"),
-                          ("harness.events", "C03_RoundsUnderHalt")]},
+                          ("harness.events", "C03_RoundsUnderHalt"), ("harness.priority", "C03_DeepHeap")]},
 }
 
 _N = ("trusted: z3 (cvc5 re-checks assertion obligations of the function-level harnesses in the thorough tier), CPython, the "
